@@ -120,7 +120,9 @@ def _run(engine, case):
         if taken is not None and taken.source.on_done is taken and taken.source.type == "parallel" and before_set is not None:
             b = set(before_set)
             if not (taken.source in b and spec_done(taken.source, b)):
-                log["bad_done"].append(taken.source.id)
+                # "stale": the state DID complete earlier in this run and the queued done.state event is consumed
+                # after another event has already un-completed it (same family as the stale after/done.invoke events)
+                log["bad_done"].append(taken.source.id + (":stale" if taken.source.id in log["instants"] else ""))
 
     class P:
         def on_transition(self, i, before, after, t):
@@ -212,8 +214,12 @@ def post_check(case, res):
         log = res.get(eng)
         if not log:
             continue
-        if log["bad_done"]:
-            out.append({"key": f"done/{eng}:done-event-while-not-done", "detail": str(log["bad_done"][:4])})
+        fresh_bad = [b for b in log["bad_done"] if not b.endswith(":stale")]
+        stale_bad = [b for b in log["bad_done"] if b.endswith(":stale")]
+        if fresh_bad:
+            out.append({"key": f"done/{eng}:done-event-while-not-done", "detail": str(fresh_bad[:4])})
+        if stale_bad:
+            out.append({"key": f"done/{eng}:stale-done-event-taken-while-not-done", "detail": str(stale_bad[:4])})
         from collections import Counter
         ci, cr = Counter(log["instants"]), Counter(log["received"])
         exact_family = case.get("family") == "regions" or case is NESTED_CASE
